@@ -1,5 +1,5 @@
 """C05 -- the problem handed to the solver is exactly the declared model."""
-from . import pepsolve, wrappers, translate, state, common, translprog
+from . import pepsolve, wrappers, translate, state, common, translprog, solveprog
 
 LEVEL = "other"
 EXPLANATION = ("Discovery of the containers that hold the declared model (by the kind of object appended to them) and proof that the solve root "
@@ -16,6 +16,7 @@ ASSUMPTIONS = ["numeric equality of dense and sparse data on concrete expression
 def run(ctx):
     nc, ns = pepsolve.r_drain(ctx)
     pepsolve.r_obj(ctx)
+    solveprog.r_solve_program(ctx, {"drain", "generate"})
     pepsolve.r_fresh_declarations(ctx)
     pepsolve.r_declare(ctx)
     wrappers.r_sense(ctx)
